@@ -219,6 +219,40 @@ func runC03R5(c *Ctx, r *Rep) {
 			fastObj = vp.TypesInfo.Defs[as.Lhs[0].(*ast.Ident)]
 		}
 	}
+	// the statements of EvalCode with helpers of the package spliced in where they are called; a parameter of such
+	// a helper that receives the fast-locals slice stands for it
+	fastAlias := map[types.Object]bool{}
+	for _, s := range ec.Body.List {
+		es, ok := s.(*ast.ExprStmt)
+		if !ok {
+			continue
+		}
+		call, ok := es.X.(*ast.CallExpr)
+		if !ok {
+			continue
+		}
+		fn := Callee(vp.TypesInfo, call)
+		if fn == nil || fn.Pkg() != vp.Types {
+			continue
+		}
+		hd := c.Decl(fn)
+		if hd == nil || hd.Type.Params == nil {
+			continue
+		}
+		i := 0
+		for _, f := range hd.Type.Params.List {
+			for _, nm := range f.Names {
+				if i < len(call.Args) {
+					if aid := identOf(call.Args[i]); aid != nil && fastObj != nil && vp.TypesInfo.Uses[aid] == fastObj {
+						fastAlias[vp.TypesInfo.Defs[nm]] = true
+					}
+				}
+				i++
+			}
+		}
+	}
+	flat := c.Flatten(vp, ec)
+	ec = &ast.FuncDecl{Name: ec.Name, Type: ec.Type, Body: flat}
 	for i, s := range ec.Body.List {
 		isCell, binds := false, false
 		ast.Inspect(s, func(n ast.Node) bool {
@@ -230,7 +264,7 @@ func runC03R5(c *Ctx, r *Rep) {
 			case *ast.AssignStmt:
 				for j, l := range x.Lhs {
 					if ix, ok := unparen(l).(*ast.IndexExpr); ok {
-						if id := identOf(ix.X); id != nil && fastObj != nil && vp.TypesInfo.Uses[id] == fastObj {
+						if id := identOf(ix.X); id != nil && fastObj != nil && (vp.TypesInfo.Uses[id] == fastObj || fastAlias[vp.TypesInfo.Uses[id]]) {
 							if j < len(x.Rhs) && exprStr(x.Rhs[j]) != "nil" {
 								binds = true
 							}
@@ -255,11 +289,21 @@ func runC03R5(c *Ctx, r *Rep) {
 	}
 	// (3) closure layout: compiler offsets free variables by len(Cellvars); VM copies closure[i] to len(Cellvars)+i
 	okVM := false
+	origins := localOrigins(vp.TypesInfo, ec.Body)
 	ast.Inspect(ec.Body, func(n ast.Node) bool {
 		if as, ok := n.(*ast.AssignStmt); ok && len(as.Lhs) == 1 && len(as.Rhs) == 1 {
-			l, rr := exprStr(as.Lhs[0]), exprStr(as.Rhs[0])
-			if strings.Contains(l, "len(co.Cellvars) + i") && rr == "closure[i]" {
-				okVM = true
+			ix, ok := unparen(as.Lhs[0]).(*ast.IndexExpr)
+			if !ok || exprStr(as.Rhs[0]) != "closure[i]" {
+				return true
+			}
+			if be, ok := unparen(ix.Index).(*ast.BinaryExpr); ok && be.Op == token.ADD && exprStr(be.Y) == "i" {
+				base := exprStr(be.X)
+				if id := identOf(be.X); id != nil && origins[id.Name] != nil {
+					base = exprStr(origins[id.Name]) // ncells := len(co.Cellvars)
+				}
+				if base == "len(co.Cellvars)" {
+					okVM = true
+				}
 			}
 		}
 		return true
